@@ -21,6 +21,8 @@ type scriptOp struct {
 	ID     int
 	Level  int
 	Prefix []byte
+	// More prefixes for one DropPrefix call (C29 scripts only).
+	Prefixes [][]byte
 }
 
 // genScript draws every random choice up front so that the same script can be run on two databases.
@@ -185,16 +187,20 @@ func execScript(c *core.Ctx, w *drv.World, script []scriptOp) [][]string {
 			}
 		case "dropprefix":
 			w.Steps = append(w.Steps, fmt.Sprintf("tables before DropPrefix(%x): %v", op.Prefix, tableSummaryLocal(w.DB)))
-			if err := w.DB.DropPrefix(op.Prefix); err != nil {
+			all := append([][]byte{op.Prefix}, op.Prefixes...)
+			if err := w.DB.DropPrefix(all...); err != nil {
 				c.Violation(w.Sig+"|dropprefix-error", err.Error(), w.Witness())
 				continue
 			}
 			for k := range w.M.M {
-				if bytes.HasPrefix([]byte(k), op.Prefix) {
-					delete(w.M.M, k)
+				for _, p := range all {
+					if bytes.HasPrefix([]byte(k), p) {
+						delete(w.M.M, k)
+						break
+					}
 				}
 			}
-			w.Steps = append(w.Steps, fmt.Sprintf("DropPrefix(%x)", op.Prefix))
+			w.Steps = append(w.Steps, fmt.Sprintf("DropPrefix(%x)", all))
 		case "dropall":
 			if err := w.DB.DropAll(); err != nil {
 				c.Violation(w.Sig+"|dropall-error", err.Error(), w.Witness())
